@@ -208,7 +208,27 @@ def gen_spill_case(rng):
     return {"cfg": cfg, "ops": ops, "variants": variants, "spill": True}
 
 
+def gen_long_src_case(rng):
+    """A long update (> 1000 features, auto-generated keys) whose source fails after more than 1000 items, then a
+    reopen and a further update with auto-generated keys: whatever internal batching the importer uses, keys that
+    became visible must never be handed out again."""
+    fcfg = {"p_id": 0.0, "p_parent": 0.2, "types": ["exon", "CDS"], "seqids": ["chr1"], "pool": [1, 5, 10, 20, 30, 1000]}
+    base = G.gff3_batch(rng, rng.randint(2, 4), dict(fcfg, p_id=0.9), unique_ids=True)
+    n = rng.choice([1300, 2300])
+    big = G.gff3_batch(rng, n, fcfg)
+    tail = G.gff3_batch(rng, 3, fcfg)
+    ops = [{"op": "create", "feats": base, "form": "path", "kw": {"merge_strategy": "error"}},
+           {"op": "update", "feats": big, "form": "gen", "kw": {"merge_strategy": "create_unique", "checklines": 1, "make_backup": False}},
+           {"op": rng.choice(["reopen", "restart"])},
+           {"op": "update", "feats": tail, "form": "list", "kw": {"merge_strategy": rng.choice(["error", "create_unique"]), "make_backup": False}}]
+    variants = [{"at_op": 1, "fault": {"src": rng.choice([1001, 1005, n - 1, n]), "form": rng.choice(["gen", "iter1"])}}]
+    return {"cfg": {"fmf": [], "keep_order": False}, "ops": ops, "variants": variants, "spill": True, "long_src": True}
+
+
 def gen(rng, tier):
+    r_ = rng.random()
+    if r_ < (0.008 if tier == "quick" else 0.015):
+        return gen_long_src_case(rng)
     if rng.random() < (0.012 if tier == "quick" else 0.02):
         return gen_spill_case(rng)
     if rng.random() < 0.2:
@@ -835,7 +855,9 @@ def run(case):
     out["stats"] = stats
     out["trace_hash"] = core.digest(journal)
     out["nontrivial"] = nontrivial
-    if case.get("spill"):
+    if case.get("long_src"):
+        probes["long_update_source_failure_after_1000_items"] = 1
+    elif case.get("spill"):
         probes["long_update_small_cache_crash"] = 1
     out["sample"] = {"ops": [_op_summary(o) for o in case["ops"]] if not case.get("spill") else "long update through a small page cache, crash",
                      "variants": [dict(v["fault"], at_op=v["at_op"]) for v in (case.get("variants") or [])][:6]}
